@@ -363,7 +363,7 @@ def run(tier):
                      detail='m in %s fully symbolic%s' % (done, '; larger m pass through an assembly leaf' if len(done) < len(ms) else ''),
                      nontrivial=bool(done))
     # large dimensions (thresholds 16 / 2048, recursive driver): sampled outputs on the reference path
-    big = [64, 256, 1024, 2048, 4096] if tier == 'quick' else [64, 256, 1024, 2048, 4096, 8192, 16384, 65536]
+    big = [64, 256, 1024, 2048, 4096, 16384] if tier == 'quick' else [64, 256, 1024, 2048, 4096, 8192, 16384, 65536]
     from concurrent.futures import ProcessPoolExecutor
     fams = (('reim_fft', 'reim', False), ('reim_ifft', 'reim', True), ('cplx_fft', 'cplx', False), ('cplx_ifft', 'cplx', True))
     jobs = [(name, layout, inverse, m) for (name, layout, inverse) in fams for m in big if m not in ms]
